@@ -1,5 +1,8 @@
 use crate::{ansi::BaudEmulation, Buffer, Caret, Rectangle, Size};
 
+/// Upper bound for the cursor row in a buffer that is not a terminal (a loaded file).
+const MAX_FILE_BUFFER_ROWS: i32 = 65_535;
+
 #[derive(Debug, Clone, Copy, PartialEq)]
 pub enum TerminalScrolling {
     Smooth,
@@ -197,7 +200,8 @@ impl TerminalState {
                     let first = buf.get_first_visible_line();
                     caret.pos.y = caret.pos.y.clamp(first, first + self.get_height() - 1);
                 } else {
-                    caret.pos.y = caret.pos.y.max(0);
+                    // a file buffer grows with its content, but no format (nor SAUCE) can describe more than 65535 rows
+                    caret.pos.y = caret.pos.y.clamp(0, MAX_FILE_BUFFER_ROWS - 1);
                 }
                 caret.pos.x = caret.pos.x.clamp(0, (self.get_width() - 1).max(0));
             }
